@@ -628,9 +628,9 @@ MaxOf(S) == CHOOSE x \in S : \A y \in S : y <= x
 NoMemoNoLr == \A ri \in 1..NumRules(G) : G.rules[ri].kind = "rule" => ~G.rules[ri].memoize /\ ~G.rules[ri].leftrec
 \* the sentinel planted by LrSeed is not a match attempt (it is not in att); it cannot
 \* surface when left-recursive rules list their recursive alternatives first (G.lrfirst)
-RealFailure == Failed => /\ ctl.err.p \in AttAll
+RealFailure == Failed /\ ~G.lean => /\ ctl.err.p \in AttAll
                          /\ ctl.err.p \in Boundaries(txt)
-                         /\ G.lrfirst => \E a \in att : a.p = ctl.err.p /\ a.k = ctl.err.k
+                         /\ (G.lrfirst => \E a \in att : a.p = ctl.err.p /\ a.k = ctl.err.k)
                          /\ ctl.err.k.k # "Other"
 NoSentinel == Failed /\ G.lrfirst => ctl.err.k.k # "Sentinel"
 \* without memoized / left-recursive rules the reported position is exactly the furthest attempt
